@@ -22,7 +22,7 @@ CHECKS = {
             "fair OS scheduler; 'eventually' = within the watchdog horizon", "DESIGN.md §4 C02"),
     "C03": ("lock_stress+lock_seq", "sandwich-counter monitor (x_begun/x_done/x_rel) around optimistic checks",
             "Every optimistic check is judged from monotone counters read before/after the calls: success across "
-            "an exclusive section, inconsistent validated snapshot, spurious failure, stale refreshed version and "
+            "an exclusive section (for TryLock* also one committed inside the call, judged from x_begun re-read under the new grant), inconsistent validated snapshot, spurious failure, stale refreshed version and "
             "hand-out under X are each an implication from observed facts to a contradiction.",
             "needs exclusion (C01) for the section numbering; 2^32-commit ABA out of reach", "DESIGN.md §4 C03"),
     "C07": ("lock_seq+lock_stress", "executable guard-ownership model checked after every operation",
